@@ -760,7 +760,8 @@ def gen(rng, tier):
     for kind, n, total in (("uint", 1004, 1001), ("int", 2000, 1500), ("uint", 1004, 1000), ("hex", 1004, 2008 + 1003), ("uint", 1200, 999)):
         yield SEP.join(["C19", "arr", kind, str(n), wire(rand_bits(rng, total))])
     for dt, n in (("float16", 16), ("float32", 32), ("float64", 64), ("floatle32", 32), ("floatbe64", 64), ("bfloat", 16), ("bfloatle", 16),
-                  ("p3binary", 8), ("p4binary", 8), ("uintle16", 16), ("intbe24", 24), ("uintne32", 32), ("intle64", 64), ("bits5", 5), ("bits8", 8)):
+                  ("p3binary", 8), ("p4binary", 8), ("uintle16", 16), ("intbe24", 24), ("uintne32", 32), ("intle64", 64), ("bits5", 5), ("bits8", 8),
+                  ("bytes1", 8), ("bytes2", 16), ("bytes3", 24), ("e4m3mxfp", 8), ("e5m2mxfp", 8), ("e2m1mxfp", 4), ("e3m2mxfp", 6), ("mxint", 8)):
         for _ in range(40 if big else 8):
             items = rng.choice([0, 1, 2, 3, 6])
             t = rng.choice([0, 0, 1, n - 1, n // 2])
